@@ -1,10 +1,10 @@
 (* C17: Upstream servers are only asked for what they are configured to support.
 
-   Model: Upstream.v.  `wms_get_map T kn kd src q` is WMSSource.get_map for the source configuration `src` and the
+   Model: Upstream.v.  `wms_get_map T kn kd GI GC src q` is WMSSource.get_map for the source configuration `src` and the
    query `q`; its value `Request r` means that WMSClient.retrieve is called with the negotiated values `r`;
    `url_params tmpl fixed r` are the parameters of the URL that is opened (request template `tmpl`, fixed parameters
    of the request class `fixed`).  `T` is PROJ (arbitrary), `kn / kd` the metres-per-degree constant.
-   `tiled_get_map T kn kd ts q = TRequest (x, y, l)` means that TileClient.get_tile is called with that coordinate.
+   `tiled_get_map T kn kd GI ts q = TRequest (x, y, l)` means that TileClient.get_tile is called with that coordinate.
    All statements hold for every configuration, every query and every T. *)
 From Coq Require Import ZArith List Bool.
 Import ListNotations.
@@ -14,72 +14,74 @@ Local Open Scope Z_scope.
 (* The srs_code of an upstream request is one of the configured supported_srs codes (aliases of the query SRS and of
    the preferred_src_proj entries are replaced by the code the source lists). *)
 Theorem upstream_srs_supported :
-  forall (T : srs -> srs -> bbox -> option bbox) (kn kd : Z) (src : wms_source) (q : query) (r : request),
-    wms_get_map T kn kd src q = Request r -> w_srs src <> [] ->
+  forall (T : srs -> srs -> bbox -> option bbox) (kn kd : Z) (GI GC : Z -> bbox -> bool) (src : wms_source) (q : query) (r : request),
+    wms_get_map T kn kd GI GC src q = Request r -> w_srs src <> [] ->
     In (s_code (r_srs r)) (map s_code (w_srs src)).
 Proof. exact request_srs_code_supported. Qed.
 
 (* ... and it is the same SRS (as _SRS.__eq__ compares: same PROJ definition) as a configured one. *)
 Theorem upstream_srs_equal_to_supported :
-  forall (T : srs -> srs -> bbox -> option bbox) (kn kd : Z) (src : wms_source) (q : query) (r : request),
-    wms_get_map T kn kd src q = Request r -> w_srs src <> [] ->
+  forall (T : srs -> srs -> bbox -> option bbox) (kn kd : Z) (GI GC : Z -> bbox -> bool) (src : wms_source) (q : query) (r : request),
+    wms_get_map T kn kd GI GC src q = Request r -> w_srs src <> [] ->
     exists s, In s (w_srs src) /\ srs_eq (r_srs r) s = true.
 Proof. exact request_srs_equivalent. Qed.
 
 (* The format of an upstream request is the format chosen by _get_map, and that is an entry of supported_formats
    (the first one as fallback) or equal to one as the code compares formats (ImageFormat: same extension). *)
 Theorem upstream_format_supported :
-  forall (T : srs -> srs -> bbox -> option bbox) (kn kd : Z) (src : wms_source) (q : query) (r : request),
-    wms_get_map T kn kd src q = Request r -> w_fmts src <> [] ->
+  forall (T : srs -> srs -> bbox -> option bbox) (kn kd : Z) (GI GC : Z -> bbox -> bool) (src : wms_source) (q : query) (r : request),
+    wms_get_map T kn kd GI GC src q = Request r -> w_fmts src <> [] ->
     exists e, In e (w_fmts src) /\ (r_fmt r = e \/ fmt_match (r_fmt r) e = true).
 Proof. exact request_format_supported. Qed.
 
-(* The bbox of an upstream request lies in the coverage extent: its image in the coverage SRS is contained in the
+(* The bbox of an upstream request lies in the coverage extent (for a polygon coverage: the bounds of the geometry;
+   geom_contains_sound = what the geometry contains lies inside its bounds; vacuous for bbox coverages): its image in the coverage SRS is contained in the
    coverage bbox (bbox_contains: tolerance 1e-13 of the extent), or it lies coordinate-wise inside the image of the
    coverage bbox in the SRS of the request (clipped sub query). *)
 Theorem upstream_bbox_within_extent :
-  forall (T : srs -> srs -> bbox -> option bbox) (kn kd : Z) (src : wms_source) (q : query) (r : request)
+  forall (T : srs -> srs -> bbox -> option bbox) (kn kd : Z) (GI GC : Z -> bbox -> bool) (src : wms_source) (q : query) (r : request)
          (cb : bbox) (cs : srs),
-    wms_get_map T kn kd src q = Request r -> w_cov src = Some (cb, cs) ->
+    wms_get_map T kn kd GI GC src q = Request r -> w_cov src = Some (cb, cs) -> geom_contains_sound GC src ->
     (exists b, to_srs T (r_srs r) cs (r_bbox r) = Some b /\ bbox_contains cb b = true) \/
     (exists e, to_srs T cs (r_srs r) cb = Some e /\ inside e (r_bbox r)).
 Proof. exact request_bbox_within_extent. Qed.
 
 (* Request in the SRS of the coverage: no transformation is involved at all. *)
 Theorem upstream_bbox_within_extent_same_srs :
-  forall (T : srs -> srs -> bbox -> option bbox) (kn kd : Z) (src : wms_source) (q : query) (r : request)
+  forall (T : srs -> srs -> bbox -> option bbox) (kn kd : Z) (GI GC : Z -> bbox -> bool) (src : wms_source) (q : query) (r : request)
          (cb : bbox) (cs : srs),
-    wms_get_map T kn kd src q = Request r -> w_cov src = Some (cb, cs) -> srs_eq (r_srs r) cs = true ->
+    wms_get_map T kn kd GI GC src q = Request r -> w_cov src = Some (cb, cs) -> geom_contains_sound GC src ->
+    srs_eq (r_srs r) cs = true ->
     bbox_contains cb (r_bbox r) = true \/ inside cb (r_bbox r).
 Proof. exact request_bbox_within_extent_same_srs. Qed.
 
 (* The negotiated values are what the URL carries, whatever forward_req_params names (a forwarded parameter called
    srs / format / bbox / width / height never replaces the negotiated value). *)
 Theorem url_carries_negotiated_srs :
-  forall (T : srs -> srs -> bbox -> option bbox) (kn kd : Z) (src : wms_source) (q : query) (r : request)
+  forall (T : srs -> srs -> bbox -> option bbox) (kn kd : Z) (GI GC : Z -> bbox -> bool) (src : wms_source) (q : query) (r : request)
          (tmpl : params) (fixed : list (Z * Z)),
-    wms_get_map T kn kd src q = Request r -> ~ In K_SRS (map fst fixed) ->
+    wms_get_map T kn kd GI GC src q = Request r -> ~ In K_SRS (map fst fixed) ->
     pget K_SRS (url_params tmpl fixed r) = Some [VStr (s_code (r_srs r))].
 Proof. exact request_url_srs. Qed.
 
 Theorem url_carries_negotiated_format :
-  forall (T : srs -> srs -> bbox -> option bbox) (kn kd : Z) (src : wms_source) (q : query) (r : request)
+  forall (T : srs -> srs -> bbox -> option bbox) (kn kd : Z) (GI GC : Z -> bbox -> bool) (src : wms_source) (q : query) (r : request)
          (tmpl : params) (fixed : list (Z * Z)),
-    wms_get_map T kn kd src q = Request r -> ~ In K_FORMAT (map fst fixed) ->
+    wms_get_map T kn kd GI GC src q = Request r -> ~ In K_FORMAT (map fst fixed) ->
     pget K_FORMAT (url_params tmpl fixed r) = Some [VStr (f_mime (r_fmt r))].
 Proof. exact request_url_format. Qed.
 
 Theorem url_carries_negotiated_bbox :
-  forall (T : srs -> srs -> bbox -> option bbox) (kn kd : Z) (src : wms_source) (q : query) (r : request)
+  forall (T : srs -> srs -> bbox -> option bbox) (kn kd : Z) (GI GC : Z -> bbox -> bool) (src : wms_source) (q : query) (r : request)
          (tmpl : params) (fixed : list (Z * Z)),
-    wms_get_map T kn kd src q = Request r -> ~ In K_BBOX (map fst fixed) ->
+    wms_get_map T kn kd GI GC src q = Request r -> ~ In K_BBOX (map fst fixed) ->
     pget K_BBOX (url_params tmpl fixed r) = Some [VBox (r_bbox r)].
 Proof. exact request_url_bbox. Qed.
 
 Theorem url_carries_negotiated_size :
-  forall (T : srs -> srs -> bbox -> option bbox) (kn kd : Z) (src : wms_source) (q : query) (r : request)
+  forall (T : srs -> srs -> bbox -> option bbox) (kn kd : Z) (GI GC : Z -> bbox -> bool) (src : wms_source) (q : query) (r : request)
          (tmpl : params) (fixed : list (Z * Z)),
-    wms_get_map T kn kd src q = Request r -> ~ In K_WIDTH (map fst fixed) -> ~ In K_HEIGHT (map fst fixed) ->
+    wms_get_map T kn kd GI GC src q = Request r -> ~ In K_WIDTH (map fst fixed) -> ~ In K_HEIGHT (map fst fixed) ->
     pget K_WIDTH (url_params tmpl fixed r) = Some [VInt (r_w r)] /\
     pget K_HEIGHT (url_params tmpl fixed r) = Some [VInt (r_h r)].
 Proof. exact request_url_size. Qed.
@@ -87,8 +89,8 @@ Proof. exact request_url_size. Qed.
 (* Only configured dimensions are forwarded: the dimensions merged into the request are query dimensions whose
    lower-cased name is a (lower-cased) forward_req_params entry ... *)
 Theorem only_configured_dimensions_forwarded :
-  forall (T : srs -> srs -> bbox -> option bbox) (kn kd : Z) (src : wms_source) (q : query) (r : request) (d : dim),
-    wms_get_map T kn kd src q = Request r -> In d (r_fwd r) ->
+  forall (T : srs -> srs -> bbox -> option bbox) (kn kd : Z) (GI GC : Z -> bbox -> bool) (src : wms_source) (q : query) (r : request) (d : dim),
+    wms_get_map T kn kd GI GC src q = Request r -> In d (r_fwd r) ->
     In d (q_dims q) /\ In (d_lower d) (w_fwd src).
 Proof. exact request_dims_configured. Qed.
 
@@ -102,20 +104,21 @@ Theorem url_parameters_accounted_for :
 Proof. exact url_params_keys. Qed.
 
 (* A source whose coverage does not intersect the request is not contacted at all (also when the transformation
-   of the request bbox into the coverage SRS fails). *)
+   of the request bbox into the coverage SRS fails).  cov_intersects = bbox_intersects for a bbox coverage, the
+   shapely predicate GI of the geometry for polygon / union / difference coverages (not merely its bounds). *)
 Theorem not_contacted_outside_coverage :
-  forall (T : srs -> srs -> bbox -> option bbox) (kn kd : Z) (src : wms_source) (q : query) (cb : bbox) (cs : srs),
+  forall (T : srs -> srs -> bbox -> option bbox) (kn kd : Z) (GI GC : Z -> bbox -> bool) (src : wms_source) (q : query) (cb : bbox) (cs : srs),
     w_cov src = Some (cb, cs) ->
-    (forall b, to_srs T (q_srs q) cs (q_bbox q) = Some b -> bbox_intersects cb b = false) ->
-    forall r, wms_get_map T kn kd src q <> Request r.
+    (forall b, to_srs T (q_srs q) cs (q_bbox q) = Some b -> cov_intersects GI (w_geom src) cb b = false) ->
+    forall r, wms_get_map T kn kd GI GC src q <> Request r.
 Proof. exact no_request_outside_coverage. Qed.
 
 (* A source whose resolution range excludes the resolution of the request is not contacted at all. *)
 Theorem not_contacted_outside_res_range :
-  forall (T : srs -> srs -> bbox -> option bbox) (kn kd : Z) (src : wms_source) (q : query) (rr : res_range),
+  forall (T : srs -> srs -> bbox -> option bbox) (kn kd : Z) (GI GC : Z -> bbox -> bool) (src : wms_source) (q : query) (rr : res_range),
     w_rr src = Some rr ->
     rr_contains kn kd rr (q_bbox q) (q_w q) (q_h q) (s_latlong (q_srs q)) = false ->
-    forall r, wms_get_map T kn kd src q <> Request r.
+    forall r, wms_get_map T kn kd GI GC src q <> Request r.
 Proof. exact no_request_outside_res_range. Qed.
 
 (* What rr_contains means (projected SRS; lo = min_res + 1e-6 = ln / ld, hi = max_res = hn / hd; x_res = w / sx):
@@ -131,22 +134,40 @@ Proof. exact rr_contains_spec. Qed.
 (* Every request to a tile upstream addresses a tile that exists in the source grid: the coordinate substituted
    into the URL satisfies limit_tile of the source grid (valid level, 0 <= x < nx, 0 <= y < ny). *)
 Theorem tile_request_in_source_grid :
-  forall (T : srs -> srs -> bbox -> option bbox) (kn kd : Z) (ts : tile_source) (q : query) (x y l : Z),
-    tiled_get_map T kn kd ts q = TRequest (x, y, l) -> ress (t_grid ts) <> [] ->
+  forall (T : srs -> srs -> bbox -> option bbox) (kn kd : Z) (GI : Z -> bbox -> bool) (ts : tile_source) (q : query) (x y l : Z),
+    tiled_get_map T kn kd GI ts q = TRequest (x, y, l) -> ress (t_grid ts) <> [] ->
     limit_tile (t_grid ts) x y l = Some (x, y, l).
 Proof. exact tile_request_in_grid. Qed.
 
 (* Tile sources are not contacted outside coverage / resolution range either. *)
 Theorem tile_not_contacted_outside_coverage :
-  forall (T : srs -> srs -> bbox -> option bbox) (kn kd : Z) (ts : tile_source) (q : query) (cb : bbox) (cs : srs),
+  forall (T : srs -> srs -> bbox -> option bbox) (kn kd : Z) (GI : Z -> bbox -> bool) (ts : tile_source) (q : query) (cb : bbox) (cs : srs),
     t_cov ts = Some (cb, cs) ->
-    (forall b, to_srs T (q_srs q) cs (q_bbox q) = Some b -> bbox_intersects cb b = false) ->
-    forall c, tiled_get_map T kn kd ts q <> TRequest c.
+    (forall b, to_srs T (q_srs q) cs (q_bbox q) = Some b -> cov_intersects GI (t_geom ts) cb b = false) ->
+    forall c, tiled_get_map T kn kd GI ts q <> TRequest c.
 Proof. exact tile_no_request_outside_coverage. Qed.
 
 Theorem tile_not_contacted_outside_res_range :
-  forall (T : srs -> srs -> bbox -> option bbox) (kn kd : Z) (ts : tile_source) (q : query) (rr : res_range),
+  forall (T : srs -> srs -> bbox -> option bbox) (kn kd : Z) (GI : Z -> bbox -> bool) (ts : tile_source) (q : query) (rr : res_range),
     t_rr ts = Some rr ->
     rr_contains kn kd rr (q_bbox q) (q_w q) (q_h q) (s_latlong (q_srs q)) = false ->
-    forall c, tiled_get_map T kn kd ts q <> TRequest c.
+    forall c, tiled_get_map T kn kd GI ts q <> TRequest c.
 Proof. exact tile_no_request_outside_res_range. Qed.
+
+(* Sources requested together (LAYERS=a,b on the same upstream) are combined only when both resolution ranges
+   contain the request and both have the same coverage, and the combined request honours the contract of both:
+   coverage gate, bbox within the common extent, SRS, format, and only dimensions that both forward. *)
+Theorem combined_request_keeps_contract :
+  forall (T : srs -> srs -> bbox -> option bbox) (kn kd : Z) (GI GC : Z -> bbox -> bool)
+         (ok : bool) (a b : wms_source) (q : query) (r : request),
+    compatible kn kd ok a b q = true ->
+    wms_get_map T kn kd GI GC (combined a) q = Request r ->
+    (rr_blocks kn kd (w_rr a) q = false /\ rr_blocks kn kd (w_rr b) q = false) /\
+    (forall cb cs, w_cov a = Some (cb, cs) ->
+       (exists bb, to_srs T (q_srs q) cs (q_bbox q) = Some bb /\ cov_intersects GI (w_geom a) cb bb = true) /\
+       (exists cs', w_cov b = Some (cb, cs') /\ srs_eq cs cs' = true /\ w_geom a = w_geom b) /\
+       (geom_contains_sound GC a -> within_extent T cb cs r)) /\
+    (w_srs a <> [] -> In (s_code (r_srs r)) (map s_code (w_srs a))) /\
+    (w_fmts a <> [] -> exists e, In e (w_fmts a) /\ (r_fmt r = e \/ fmt_match (r_fmt r) e = true)) /\
+    (forall d, In d (r_fwd r) -> In d (q_dims q) /\ In (d_lower d) (w_fwd a) /\ In (d_lower d) (w_fwd b)).
+Proof. exact combined_request_contract. Qed.
